@@ -541,14 +541,28 @@ fn anf<'a>(
             ty: _,
         } => {
             let op_copy = op;
-            anf_imm(
+            let arithmetic = matches!(
+                op,
+                BinaryOp::Add | BinaryOp::Sub | BinaryOp::Mul | BinaryOp::Div
+            );
+            let lhs_anf = if arithmetic && is_numeric_literal(&lhs) && is_numeric_literal(&rhs) {
+                anf_named
+            } else {
+                anf_imm
+            };
+            let rhs_anf = if op == BinaryOp::Div && is_zero_literal(&rhs) {
+                anf_named
+            } else {
+                anf_imm
+            };
+            lhs_anf(
                 anfenv,
                 gensym,
                 *lhs,
                 Box::new(move |lhs_imm| {
                     let op_copy = op_copy;
                     let e_ty = e_ty.clone();
-                    anf_imm(
+                    rhs_anf(
                         anfenv,
                         gensym,
                         *rhs,
@@ -658,6 +672,33 @@ fn anf<'a>(
     }
 }
 
+fn is_numeric_literal(e: &LiftExpr) -> bool {
+    matches!(
+        e,
+        LiftExpr::EPrim { value, .. }
+            if !matches!(value, Prim::Unit { .. } | Prim::Bool { .. } | Prim::String { .. })
+    )
+}
+
+fn is_zero_literal(e: &LiftExpr) -> bool {
+    match e {
+        LiftExpr::EPrim { value, .. } => match value {
+            Prim::Int8 { value } => *value == 0,
+            Prim::Int16 { value } => *value == 0,
+            Prim::Int32 { value } => *value == 0,
+            Prim::Int64 { value } => *value == 0,
+            Prim::UInt8 { value } => *value == 0,
+            Prim::UInt16 { value } => *value == 0,
+            Prim::UInt32 { value } => *value == 0,
+            Prim::UInt64 { value } => *value == 0,
+            Prim::Float32 { value } => *value == 0.0,
+            Prim::Float64 { value } => *value == 0.0,
+            Prim::Unit { .. } | Prim::Bool { .. } | Prim::String { .. } => false,
+        },
+        _ => false,
+    }
+}
+
 fn anf_imm<'a>(
     anfenv: &'a GlobalAnfEnv,
     gensym: &'a Gensym,
@@ -667,29 +708,36 @@ fn anf_imm<'a>(
     match e {
         LiftExpr::EVar { name, ty } => k(ImmExpr::ImmVar { name, ty }),
         LiftExpr::EPrim { value, ty } => k(ImmExpr::ImmPrim { value, ty }),
-        _ => {
-            let name = gensym.gensym("t");
-            let ty = e.get_ty();
-            anf(
-                anfenv,
-                gensym,
-                e,
-                Box::new(move |value_expr| {
-                    let body_expr = k(ImmExpr::ImmVar {
-                        name: name.clone(),
-                        ty: ty.clone(),
-                    });
-                    let body_ty = body_expr.get_ty();
-                    AExpr::ALet {
-                        name: name.clone(),
-                        value: Box::new(value_expr),
-                        body: Box::new(body_expr),
-                        ty: body_ty,
-                    }
-                }),
-            )
-        }
+        _ => anf_named(anfenv, gensym, e, k),
     }
+}
+
+fn anf_named<'a>(
+    anfenv: &'a GlobalAnfEnv,
+    gensym: &'a Gensym,
+    e: LiftExpr,
+    k: Box<dyn FnOnce(ImmExpr) -> AExpr + 'a>,
+) -> AExpr {
+    let name = gensym.gensym("t");
+    let ty = e.get_ty();
+    anf(
+        anfenv,
+        gensym,
+        e,
+        Box::new(move |value_expr| {
+            let body_expr = k(ImmExpr::ImmVar {
+                name: name.clone(),
+                ty: ty.clone(),
+            });
+            let body_ty = body_expr.get_ty();
+            AExpr::ALet {
+                name: name.clone(),
+                value: Box::new(value_expr),
+                body: Box::new(body_expr),
+                ty: body_ty,
+            }
+        }),
+    )
 }
 
 fn anf_list<'a>(
